@@ -34,46 +34,58 @@ def check_refusal(rep, mod):
     name = mod.find(SIG_INV)
     fi = FnInfo(mod.fn(name))
     site = site_of(mod, name)
+    def must_exit(start):
+        """(all paths from `start` reach a process-ending call before a return, problems found on the way)"""
+        bad_ = []
+        seen_ = set()
+        todo_ = [start]
+        exits_ = 0
+        while todo_:
+            x = todo_.pop()
+            if x in seen_:
+                continue
+            seen_.add(x)
+            stop = False
+            for ins in fi.fn.blocks[x]:
+                c = callee_name(ins)
+                if c in ('exit', 'abort', '_exit', 'quick_exit', '__assert_fail', '_ZSt9terminatev'):
+                    exits_ += 1
+                    stop = True
+                    break
+                if ins.op == 'store' and '%result' in fi.backward_slice(regs_of(ins.a[1])):
+                    bad_.append('a value is stored to result before the process is ended')
+                if ins.op == 'ret':
+                    bad_.append('the refusing branch can return to the caller')
+            if not stop:
+                todo_ += fi.succ.get(x, [])
+        return exits_, bad_
     guard = None
     for b in fi.fn.order:
         t = fi.term[b]
-        if t is not None and t.op == 'br' and t.a and t.a[0][0] == 'r':
-            d = fi.defs.get(t.a[0][1])
-            if d and callee_name(d[1]) and re.match(r'^Goldilocks::isZero\(', mod.dem.get(callee_name(d[1]), '')) and d[1].a[1] == ('r', '%in1'):
-                guard = (b, t)
+        if t is not None and t.op == 'br' and t.a and len(t.x) == 2:
+            for side in (0, 1):
+                ex, bd = must_exit(t.x[side])
+                if ex and not any('return' in m for m in bd):
+                    guard = (b, t, side, ex, bd)
+                    break
+        if guard:
+            break
     if guard is None:
-        rep.incomplete('refusal:guard', 'R-MUSTEXIT', site, 'no branch on isZero(in1) found in Goldilocks::inv')
-        return
-    b, t = guard
-    # walk the true side
-    bad = []
-    seen = set()
-    todo = [t.x[0]]
-    exits = 0
-    while todo:
-        x = todo.pop()
-        if x in seen:
-            continue
-        seen.add(x)
-        stop = False
-        for ins in fi.fn.blocks[x]:
-            c = callee_name(ins)
-            if c in ('exit', 'abort', '_exit', 'quick_exit', '__assert_fail', '_ZSt9terminatev'):
-                exits += 1
-                stop = True
-                break
-            if ins.op == 'store' and '%result' in fi.backward_slice(regs_of(ins.a[1])):
-                bad.append('a value is stored to result before the process is ended (%s)' % ins.text.strip()[:60])
-            if ins.op == 'ret':
-                bad.append('the zero branch can return to the caller')
-        if not stop:
-            todo += fi.succ.get(x, [])
-    f, l = mod.loc(t.dbg)
-    if bad or not exits:
-        rep.refute('refusal:must-exit', 'R-MUSTEXIT', '%s:%s' % (front.rel(f), l), '; '.join(bad) or 'no process-ending call on the zero branch')
+        rep.refute('refusal:must-exit', 'R-MUSTEXIT', site, 'Goldilocks::inv has no branch whose one side always ends the process before returning')
     else:
-        rep.ok('refusal:must-exit', 'R-MUSTEXIT', '%s:%s' % (front.rel(f), l),
-               'on isZero(in1) every path ends the process (%d exit sites) before any return or store to result' % exits)
+        b, t, side, exits, bad = guard
+        f, l = mod.loc(t.dbg)
+        if bad:
+            rep.refute('refusal:must-exit', 'R-MUSTEXIT', '%s:%s' % (front.rel(f), l), '; '.join(bad))
+        else:
+            rep.ok('refusal:must-exit', 'R-MUSTEXIT', '%s:%s' % (front.rel(f), l),
+                   'one side of the guard ends the process on every path (%d exit sites) before any return or store to result' % exits)
+        d = fi.defs.get(t.a[0][1]) if t.a[0][0] == 'r' else None
+        is_iz = bool(d and callee_name(d[1]) and re.match(r'^Goldilocks::isZero\(', mod.dem.get(callee_name(d[1]), '')) and d[1].a[1] == ('r', '%in1') and side == 0)
+        if is_iz:
+            rep.ok('refusal:guard-is-isZero', 'R-MUSTEXIT', '%s:%s' % (front.rel(f), l), 'the refusing side is taken exactly when isZero(in1) holds')
+        else:
+            rep.note('the refusal guard of Goldilocks::inv is not a call of isZero(in1); its representation independence is decided by the two singleton runs below')
     # the guard is representation independent: isZero is true exactly when the residue is 0
     iz = mod.find('Goldilocks::isZero(%s const&)' % E)
 
